@@ -55,6 +55,24 @@ CLAIMED = {
               "for byte with securesystemslib on random values; sign -> dump -> load -> verify through in-toto for rsa / ecdsa / ed25519 / "
               "gpg master / gpg subkey x both formats x compact / indented, leaf and signature edits, in-toto-sign sequences.",
               "Injectivity of the canonical encoding for arbitrarily nested values: see DESIGN section 6 (partial)."),
+    "C10": _c("Theorems C10_walk_iff (the walk yields exactly the reachable non-directory entries: files, links to files, dangling links; "
+              "descending into sub-directories unless excluded and into directory links only when asked), C10_record_spec / "
+              "recordFiles_inv (exactly one key per non-excluded file candidate = scheme + stripped normalised path, with its digest; "
+              "nothing else), C10_collision_fails (two recorded candidates with the same key under prefix stripping => PrefixError, "
+              "with or without file:), C10_overlapping_prefixes_rejected. Correspondence: random trees on disk vs record_artifacts_as_dict; "
+              "op normpath; independent reference recorder as oracle.",
+              "Exclusion predicate (pathspec) and SHA-256 are parameters; no backslash in names; acyclic directory links."),
+    "C19": _c("Theorems C19_reports (the three reports are exactly keys(products) \\ keys(local), keys(local) \\ keys(products), and the common "
+              "paths with unequal hash records), C19_disjoint, C19_empty_iff (all empty iff same paths and equal records). Correspondence: "
+              "trees recorded, edited (modify / add / delete / rename / rewrite / excluded file) and compared through the library and "
+              "through in-toto-match-products main in both formats.",
+              "The local side is the C10 recording."),
+    "C20": _c("Theorems C20_dir_spec, C20_order_independent (any listing / creation order gives the same digest text), C20_text_injective "
+              "(fixed-width digests, newline-free paths: the text determines the set of (path, digest) entries), C20_ostree_spec. "
+              "Correspondence: sha256(model text) = implementation digest on trees created in shuffled order, edited variants, excludes, "
+              "non-ASCII-sorting names; synthetic OSTree repositories.",
+              "SHA-256 collision freedom is what turns text injectivity into digest sensitivity; C-locale collation = code-point order is "
+              "checked by correspondence."),
     "C14": _c("Theorems C14_signature_check_equiv (same signers, distinct key ids, non-gpg key: first-match and any-match checks agree), "
               "C14_layout_format_irrelevant (verdict, summary link and trace depend on the layout's container only through payload and "
               "check outcomes), C14_envelope_untouched. Correspondence: every C02 / C05 / C06 / C07 / C08 scenario materialised under "
